@@ -34,7 +34,7 @@ NewTx == [q |-> -1, s |-> -1, qc |-> 0, sc |-> 0, tc |-> 0, c100 |-> 0, c100line
           qcompleting |-> FALSE, scompleting |-> FALSE, qmark |-> 0, smark |-> 0, qdata |-> FALSE, sdata |-> FALSE,
           sites |-> {}, destroyed |-> FALSE, connect |-> FALSE, resseen |-> FALSE, qstartpos |-> 0, sstartpos |-> 0]
 
-ObsInit == [cfg |-> [autod |-> FALSE, maxtx |-> 0, hard |-> 18000, mode |-> "proto", wf |-> FALSE, n |-> -1, cls |-> "", failat |-> -1],
+ObsInit == [cfg |-> [autod |-> FALSE, maxtx |-> 0, hard |-> 18000, mode |-> "proto", wf |-> FALSE, ids |-> FALSE, pumpdir |-> "none", pumpstart |-> 0, n |-> -1, cls |-> "", failat |-> -1],
             run |-> "", txs |-> <<>>, viol |-> {}, gsites |-> {}, pos |-> 0,
             call |-> [d |-> "none", k |-> "", len |-> 0, off |-> 0], cbs |-> 0, opened |-> FALSE,
             lastrc |-> [req |-> "none", res |-> "none"], counter |-> [req |-> 0, res |-> 0], counters_known |-> TRUE,
@@ -87,11 +87,14 @@ ObsCb(o, ev) ==
       isq == n = "request_complete"
       iss == n = "response_complete"
       vAcc == (IF (isq \/ iss) /\ ev.dl >= 0 /\ ev.el # ev.dl THEN {V("C06:EntityLenIsDelivered", n, i)} ELSE {})
-              \cup (IF (isq \/ iss) /\ ev.tc = TC_IDENTITY /\ ev.ce = CE_NONE /\ ev.ml # ev.el THEN {V("C06:IdentityLens", n, i)} ELSE {})
               \cup (IF (isq \/ iss) /\ ev.wl >= 0 /\ ev.ml # ev.wl THEN {V("C06:MessageLenIsWire", n, i)} ELSE {})
               \cup (IF (isq \/ iss) /\ ev.xl >= 0 /\ ev.dl # ev.xl THEN {V("C06:DeliveredIsBody", "length", i)} ELSE {})
               \cup (IF isq /\ t.qdata /\ t.qmark = 0 THEN {V("C06:MarkerBeforeComplete", n, i)} ELSE {})
               \cup (IF iss /\ t.sdata /\ t.smark = 0 THEN {V("C06:MarkerBeforeComplete", n, i)} ELSE {})
+      \* C04 pairing by planted ids, judged when the transaction completes (it may be destroyed right afterwards)
+      vPair == IF n = "transaction_complete" /\ o.cfg.wf /\ o.cfg.ids /\ ~o.faulted /\
+                  ~(ev.uri = <<"/r" \o ToString(i)>> /\ ev.xid = <<ToString(i)>>)
+               THEN {V("C04:Paired", "ids", i)} ELSE {}
       vBody == IF n \in {"request_body_data", "response_body_data"} /\ ~ev.nul /\ ~ev.m THEN {V("C06:DeliveredIsBody", n, i)} ELSE {}
       t1 == [t EXCEPT !.q = IF sd = "q" /\ ~marker /\ ~flush /\ n # "request_file_data" /\ r > @ THEN r ELSE @,
                       !.s = IF sd = "s" /\ ~marker /\ ~flush /\ r > @ THEN r ELSE @,
@@ -112,7 +115,7 @@ ObsCb(o, ev) ==
       wc == IF n = "request_headers" /\ t1.connect /\ ~t1.resseen THEN i
             ELSE IF i = o.waitconnect /\ (n = "response_line" \/ ev.sp > LINE) THEN -1 ELSE o.waitconnect
       o1 == WithTx(o, i, t1)
-  IN [Add(o1, vOrder \cup vProg \cup vOnce \cup vBoth \cup vAfterTx \cup vDead \cup vSticky \cup vTunnel \cup vSuspend \cup vAcc \cup vBody)
+  IN [Add(o1, vOrder \cup vProg \cup vOnce \cup vBoth \cup vAfterTx \cup vDead \cup vSticky \cup vTunnel \cup vSuspend \cup vAcc \cup vBody \cup vPair)
         EXCEPT !.cbs = @ + 1, !.waitconnect = wc, !.waitarmed = (@ /\ wc >= 0),
                !.txcorder = IF n = "transaction_complete" THEN Append(@, i) ELSE @]
 
@@ -156,33 +159,45 @@ ObsRet(o, ev) ==
       \* C16: while a CONNECT waits for its answer, a request call consumes nothing
       vWait == IF d = "req" /\ c.k = "data" /\ o.waitarmed /\ o.waitconnect >= 0 /\ ev.consumed > 0
                THEN {V("C16:ConnectSuspends", "consumed", o.waitconnect)} ELSE {}
+      \* C10 pump scenarios: an unterminated line starts at stream offset pumpstart of direction pumpdir; what has to be retained
+      \* at the end of this call is everything offered since then.  Over the hard limit => ERROR; otherwise not truncated.
+      need == c.off + c.len - o.cfg.pumpstart
+      pump == data /\ d = o.cfg.pumpdir /\ need > 0 /\ prev \notin {"ERROR", "STOP"}
+      vOver == IF pump /\ need > o.cfg.hard /\ ev.rc # "ERROR" THEN {V("C10:OverLimitIsError", d, -1)} ELSE {}
+      vTrunc == IF pump /\ ev.rc = "DATA" /\ buf # need THEN {V("C10:NotSilentlyTruncated", d, -1)} ELSE {}
+      \* C10 steady state: after each complete transaction (nothing in progress) the live heap does not exceed the 8th sample
+      samp == o.cfg.cls = "steady" /\ d = "res" /\ ev.in_tx = -1 /\ ev.out_tx = -1
+      st1 == IF samp THEN [k |-> o.steady.k + 1, base |-> IF o.steady.k + 1 = 8 THEN ev.live ELSE o.steady.base,
+                           baseb |-> IF o.steady.k + 1 = 8 THEN ev.liveb ELSE o.steady.baseb] ELSE o.steady
+      vSteady == IF samp /\ o.steady.k >= 8 /\ (ev.live > o.steady.base \/ ev.liveb > o.steady.baseb)
+                 THEN {V("C10:SteadyState", "live-heap-grows", -1)} ELSE {}
       zero == IF data /\ ev.rc = "DATA_OTHER" /\ ev.consumed = 0 THEN o.zero + 1 ELSE IF data THEN 0 ELSE o.zero
       vPing == IF zero >= 4 /\ o.cfg.mode = "proto" THEN {V("C09:NoPingPong", d, -1)} ELSE {}
       o1 == IF data THEN [o EXCEPT !.lastrc[d] = ev.rc, !.counter[d] = cnt,
                                    !.tunnel[d] = @ \/ ev.rc = "TUNNEL",
                                    !.bothtunnel = @ \/ (ev.ist = "TUNNEL" /\ ev.ost = "TUNNEL")]
             ELSE [o EXCEPT !.closed = TRUE, !.counter = [req |-> ev.inc, res |-> ev.outc]]
-  IN [Add(o1, vCall \cup vDoc \cup vAll \cup vLess \cup vCons \cup vCnt \cup vStop \cup vErr \cup vTun \cup vNtx \cup vBuf \cup vWait \cup vPing)
-        EXCEPT !.call = [d |-> "none", k |-> "", len |-> 0, off |-> 0], !.ntx = ev.ntx, !.zero = zero,
+  IN [Add(o1, vCall \cup vDoc \cup vAll \cup vLess \cup vCons \cup vCnt \cup vStop \cup vErr \cup vTun \cup vNtx \cup vBuf \cup vWait \cup vPing \cup vOver \cup vTrunc \cup vSteady)
+        EXCEPT !.call = [d |-> "none", k |-> "", len |-> 0, off |-> 0], !.ntx = ev.ntx, !.zero = zero, !.steady = st1,
                !.waitarmed = (o.waitconnect >= 0 /\ (@ \/ d = "req"))]
 
 ObsDestroy(o, ev) == IF ev.done THEN WithTx(o, ev.tx, [TxOf(o, ev.tx) EXCEPT !.destroyed = TRUE]) ELSE o
 
 (* ------------------------------------------------------------------ end of run: C01 teardown, C04 count/order, C09 progress, C16 outcome *)
-IsSorted(s) == \A a, b \in 1..Len(s) : a < b => s[a] < s[b]
+IsSorted(s) == \A a, b \in 1..Len(s) : a < b => s[a] <= s[b]      \* a repeated completion is C05's business, not C04's
 ObsEnd(o, ev) ==
   LET vSan == IF ev.san THEN {V("C01:NoSanitizerReport", ev.what, -1)} ELSE {}
       vRet == IF o.call.d # "none" THEN {V("C01:EveryCallReturns", o.call.d, -1)} ELSE {}
       vLive == IF ev.live # 0 THEN {V("C01:TeardownClean", "live-after-destroy", -1)} ELSE {}
       vStall == IF ev.stall THEN {V("C09:NoPingPong", "stall", -1)} ELSE {}
       wf == o.cfg.wf /\ ~o.faulted
-      vN == IF wf /\ o.cfg.n >= 0 /\ Len(o.txcorder) # o.cfg.n THEN {V("C04:CountIsN", "transaction_complete", -1)} ELSE {}
-      vNtx == IF wf /\ o.cfg.n >= 0 /\ ev.ntx # o.cfg.n THEN {V("C04:CountIsN", "ntx", -1)} ELSE {}
+      vN == IF wf /\ o.cfg.n >= 0 /\ Cardinality({o.txcorder[k] : k \in 1..Len(o.txcorder)}) # o.cfg.n THEN {V("C04:CountIsN", "transaction_complete", -1)} ELSE {}
+      vNtx == IF wf /\ o.cfg.n >= 0 /\ ev.nser # o.cfg.n THEN {V("C04:CountIsN", "transactions-seen", -1)} ELSE {}
       vOrd == IF wf /\ ~IsSorted(o.txcorder) THEN {V("C04:InArrivalOrder", "transaction_complete", -1)} ELSE {}
       vLeft == IF wf /\ o.cfg.cls # "tunnel" /\ (ev.leftq # 0 \/ ev.lefts # 0) THEN {V("C16:NoByteSkippedOrTwice", "left-unfed", -1)} ELSE {}
       vTun == IF wf /\ o.cfg.cls = "tunnel" /\ ~o.bothtunnel THEN {V("C16:TunnelEntered", "both", -1)} ELSE {}
       \* resumed parsing after a refused CONNECT / an HTTP tunnel payload: every request is parsed exactly once
-      vRes == IF wf /\ o.cfg.cls = "resume" /\ o.cfg.n >= 0 /\ (ev.ntx # o.cfg.n \/ Cardinality({o.txcorder[k] : k \in 1..Len(o.txcorder)}) # o.cfg.n)
+      vRes == IF wf /\ o.cfg.cls = "resume" /\ o.cfg.n >= 0 /\ (ev.nser # o.cfg.n \/ Cardinality({o.txcorder[k] : k \in 1..Len(o.txcorder)}) # o.cfg.n)
               THEN {V("C16:ResumeParsesEachRequestOnce", "transactions", -1)} ELSE {}
       vNoTun == IF wf /\ o.cfg.cls # "tunnel" /\ (o.tunnel.req \/ o.tunnel.res \/ o.bothtunnel) THEN {V("C16:NoSpuriousTunnel", "tunnel", -1)} ELSE {}
   IN [Add(o, vSan \cup vRet \cup vLive \cup vStall \cup vN \cup vNtx \cup vOrd \cup vLeft \cup vTun \cup vNoTun \cup vRes) EXCEPT !.ended = TRUE]
@@ -192,8 +207,10 @@ ObsEnd(o, ev) ==
 ObsFinal(o, ev) ==
   LET n == Len(o.txs)
       pip == \E i \in 1..(n - 1) : o.txs[i + 1].qstartpos > 0 /\ (o.txs[i].sstartpos = 0 \/ o.txs[i + 1].qstartpos < o.txs[i].sstartpos)
-      v == IF o.cfg.wf /\ ~o.faulted /\ ev.pipelined # pip THEN {V("C04:PipelinedIff", IF pip THEN "missing" ELSE "spurious", -1)} ELSE {}
-  IN Add(o, v)
+      wf == o.cfg.wf /\ ~o.faulted
+      v == IF wf /\ ev.pipelined # pip THEN {V("C04:PipelinedIff", IF pip THEN "missing" ELSE "spurious", -1)} ELSE {}
+      vPair == IF wf /\ o.cfg.ids /\ ~o.cfg.autod /\ Len(ev.txs) # o.cfg.n THEN {V("C04:CountIsN", "reported", -1)} ELSE {}
+  IN Add(o, v \cup vPair)
 
 ObsReset(ev) == [ObsInit EXCEPT !.cfg = ev.cfg, !.run = ev.run]
 
